@@ -162,8 +162,23 @@ def analyse(unit, vr, linemap, report, gen_path=''):
                     tags = list(f['tags'])
             if not tags:
                 tags = ['C01']
+        vs_assert = None
+        if clause is None and kind == 'assertion':
+            for sp_ in prim + sec:
+                o_ = sp_['origin']
+                if o_ and o_['kind'] == 'vspec':
+                    vs_assert = o_
+                    try:
+                        ltxt = open(o_['file']).read().split('\n')[o_['line'] - 1]
+                        mo_ = vspec.TAG_RE.search(ltxt)
+                        if mo_: tags = mo_.group(1).split()
+                    except Exception:
+                        pass
+                    break
         if clause is not None:
             where = '%s:%d' % (clause['vspec'], clause['first'])
+        elif vs_assert is not None:
+            where = '%s:%d' % (os.path.relpath(vs_assert['file'], VERIF), vs_assert['line'])
         elif sec and sec[0]['origin'] and sec[0]['origin']['kind'] in ('shim', 'vstd') and site:
             where = '%s:%d(%s:%d)' % (site['file'], site['line'], os.path.basename(sec[0]['origin']['file']), sec[0]['origin']['line'])
         elif site:
@@ -198,6 +213,39 @@ def function_times(vr):
             res.append({'function': fb.get('function'), 'time_us': fb.get('time-micros'), 'rlimit': fb.get('rlimit'), 'success': fb.get('success')})
     return res
 
+def isolate_clauses(name, outdir, repo, contracts, fn_disp, report):
+    """A function hit the resource limit: verify each of its ensures clauses on its own (the other
+    ensures clauses removed, everything else unchanged) to find out which obligation is the one that no
+    longer verifies.  Returns (failures, undecided)."""
+    from concurrent.futures import ThreadPoolExecutor
+    clauses = [c for c in report['clauses'] if c['fn'] == fn_disp and c['section'] == 'ensures' and c.get('mode') == 'verify' and 'loop' not in c]
+    mod = fn_disp.rsplit('::', 1)[0] if '::' in fn_disp else ''
+    def one(cl):
+        u = splice.Unit(name, repo=repo, contracts=contracts)
+        u.clause_filter = {fn_disp: {cl['first']}}
+        text, linemap = u.build()
+        path = os.path.join(outdir, '%s_iso_%d.rs' % (name, cl['first']))
+        open(path, 'w').write(text)
+        extra = ['--rlimit', '60']
+        if mod:
+            extra += ['--verify-module', mod]
+        vr = run_verus(path, extra=extra, multiple_errors=3)
+        f, und = analyse(name, vr, linemap, u.report, path)
+        try: os.remove(path)
+        except OSError: pass
+        return cl, f, und
+    fails, undec = [], []
+    with ThreadPoolExecutor(max_workers=8) as ex:
+        for cl, f, und in ex.map(one, clauses):
+            for x in f:
+                if x['fn'] == fn_disp:
+                    x['obligation'] = x['obligation'].replace('/%s/' % name, '/%s/' % name)
+                    x['isolated'] = True
+                    fails.append(x)
+            for u_ in und:
+                undec.append('clause %s:%d of %s alone: %s' % (cl['vspec'], cl['first'], fn_disp, u_))
+    return fails, undec
+
 def run_unit(name, outdir, repo='/repo', canary=False, contracts=None, extra=None):
     """Build and verify one unit.  Returns a result dict."""
     res = {'unit': name, 'canary': canary}
@@ -217,6 +265,25 @@ def run_unit(name, outdir, repo='/repo', canary=False, contracts=None, extra=Non
     open(path, 'w').write(text)
     vr = run_verus(path, extra=extra, multiple_errors=(1 if canary else 20))
     failures, undecided = analyse(name, vr, linemap, u.report, path)
+    # resource limit in a function: isolate its clauses (only outside canary mode)
+    if not canary:
+        rl_fns = set()
+        for d in vr.get('diags', []):
+            if d.get('level') == 'error' and 'Resource limit' in d.get('message', ''):
+                for sp in d.get('spans', []):
+                    fs = enclosing_fn(u.report, sp['line_start'])
+                    if fs: rl_fns.add(fs['fn'])
+        if rl_fns:
+            undecided = [x for x in undecided if 'Resource limit' not in x]
+            for fnd in sorted(rl_fns):
+                f2, u2 = isolate_clauses(name, outdir, repo, contracts, fnd, u.report)
+                seen = set(x['obligation'] for x in failures)
+                for x in f2:
+                    if x['obligation'] not in seen:
+                        seen.add(x['obligation']); failures.append(x)
+                if not f2:
+                    undecided.append('verus: resource limit exceeded in %s and no single clause fails in isolation' % fnd)
+                undecided += [x for x in u2 if 'Resource limit' not in x]
     j = vr.get('json') or {}
     r = j.get('verification-results', {})
     res.update(report=u.report, failures=failures, undecided=undecided,
